@@ -171,6 +171,12 @@ func (m *MdnsManager) Start(cb api.MdnsReportInterface) error {
 		return err
 	}
 
+	// the provider may resolve services as soon as it is started,
+	// entries processed before the callback is known would never be reported
+	m.muxFields.Lock()
+	m.report = cb
+	m.muxFields.Unlock()
+
 	switch m.providerSelection {
 	case MdnsProviderSelectionAll:
 		// First try avahi, if not available use zerconf
@@ -203,10 +209,6 @@ func (m *MdnsManager) Start(cb api.MdnsReportInterface) error {
 	if err := m.AnnounceMdnsEntry(); err != nil {
 		return err
 	}
-
-	m.muxFields.Lock()
-	m.report = cb
-	m.muxFields.Unlock()
 
 	// catch signals
 	go func() {
